@@ -128,6 +128,7 @@ func checkC06(c *Check) {
 	c06ActionParsed(c, "R8")
 	c06RcptMemory(c)
 	c06BodyOnce(c)
+	c06DeepCopyComplete(c, "R11")
 
 	// ---- R2
 	c.Rule("R2", "no verdict is dropped: after an error of checkConnSender / checkRcpt / checkBody / applyResults the function neither reports success nor hands anything to a target", 8)
